@@ -166,3 +166,13 @@ def run_case(case, rng):
         case.check(iv == iv_ref, "initial_value-differs", f"{iv!r} vs {iv_ref!r}", gamma=gamma)
     ch = purity.changed()
     case.check(not ch, "purity:mdp-arrays-mutated", f"changed: {ch}")
+    # the same policy object evaluated again on the same MDP object must give the same answer
+    res2 = case.call("evaluate_on(repeat)", tp.evaluate_on, mdp, facts=dict(gamma=gamma))
+    case.count("repeat_evaluations")
+    if res2 is not case.FAIL:
+        V2 = Rd.vec(res2.state_value, S)
+        O2 = Rd.vec(res2.state_occupancy, S)
+        same = np.array_equal(V, V2, equal_nan=True) and np.array_equal(O, O2, equal_nan=True) and \
+            (float(res2.initial_value) == iv or (iv != iv and float(res2.initial_value) != float(res2.initial_value)))
+        case.check(same, "second-evaluation-on-the-same-objects-differs",
+                   lambda: f"V {V.tolist()} -> {V2.tolist()} ; occupancy {O.tolist()} -> {O2.tolist()}", gamma=gamma)
